@@ -144,8 +144,11 @@ class Sim:
         C = self.A["configuration"].QuicConfiguration
         T = self.A["tls"]
         side = "c" if is_client else "s"
-        c = C(is_client=is_client, alpn_protocols=list(self.cfg["alpn"]),
-              congestion_control_algorithm=self.cfg["cc"], idle_timeout=self.cfg["idle"],
+        # ("c_idle" / "s_idle" / "s_alpn": per-side overrides, absent = the common value)
+        idle = self.cfg.get(side + "_idle") or self.cfg["idle"]
+        alpn = self.cfg.get("s_alpn") if (side == "s" and self.cfg.get("s_alpn")) else self.cfg["alpn"]
+        c = C(is_client=is_client, alpn_protocols=list(alpn),
+              congestion_control_algorithm=self.cfg["cc"], idle_timeout=idle,
               max_datagram_size=self.cfg["mds"])
         md, msd = self.cfg["max_data"], self.cfg["max_stream_data"]
         if not is_client:
